@@ -5,7 +5,9 @@
    equal the specification's (Posix.v: the kernel's discretionary access control).
    Generalises the administrator-only theorems of StepEq.v; built on WalkBridge / WalkSym / DacProofs. *)
 From Avfs Require Import Base PathModel PathSpec PathProofs PathCleanProofs PathIterProofs.
+From Avfs Require Import Inv.
 From Avfs Require Import MemFS MemFile World Posix WalkBridge WalkSym WalkBudget WalkReadlink StepEq DacProofs.
+From Avfs Require Import DacGetwd.
 
 (* ---- the hypotheses of a step: no assumption on the user ------------------------------------------- *)
 Record dac_hyps (s : fsys) (sv : sview) : Prop := {
@@ -799,21 +801,21 @@ Qed.
 Definition source_is_dir (s : fsys) (sv : sview) (cs : list str) : Prop :=
   forall par kind name n, klookup s sv false false (abs_path cs) = WNode par kind name n -> node_is_dir (f_heap s) n = true.
 
-(* neither side takes the destination to lie inside the source (the implementation compares path strings, the
-   kernel walks up from the destination directory: the agreement of the two tests is not part of this theorem) *)
-Definition not_into_itself (s : fsys) (sv : sview) (co cn : list str) : Prop :=
+(* the two own-subtree tests agree (the implementation compares path strings, the kernel walks up from the destination
+   directory); [into_itself_agree_inv] below derives it on the states of C05 when the moved directory is searchable *)
+Definition into_itself_agree (s : fsys) (sv : sview) (co cn : list str) : Prop :=
   forall opar okind oname oc npar nname md,
     klookup s sv false false (abs_path co) = WNode opar okind oname oc ->
     klookup s sv false false (abs_path cn) = WNeg npar nname md ->
-    is_ancestor (S (length (f_heap s))) (f_heap s) (v_root (sv_view sv)) oc npar = false
-    /\ is_prefix (pi_path (sr_pi (search_node s (sv_view sv) (abs_path co) SlLstat)) ++ [SLASH])
-                 (pi_path (sr_pi (search_node s (sv_view sv) (abs_path cn) SlLstat))) = false.
+    is_prefix (pi_path (sr_pi (search_node s (sv_view sv) (abs_path co) SlLstat)) ++ [SLASH])
+              (pi_path (sr_pi (search_node s (sv_view sv) (abs_path cn) SlLstat)))
+    = is_ancestor (S (length (f_heap s))) (f_heap s) (v_root (sv_view sv)) oc npar.
 
 (* moving a directory to another directory needs write permission on it (EACCES), on both sides *)
 Theorem dstep_rename_dir_new (s : fsys) (sv : sview) (wo : list str) (clo : str) (w : list str) (cl : str) :
   dac_hyps s sv -> path_ok s sv SlLstat (wo ++ [clo]) -> path_ok s sv SlLstat (w ++ [cl]) ->
   source_is_dir s sv (wo ++ [clo]) -> dest_absent s sv (w ++ [cl]) -> rename_one_error s sv (wo ++ [clo]) (w ++ [cl]) ->
-  not_into_itself s sv (wo ++ [clo]) (w ++ [cl]) ->
+  into_itself_agree s sv (wo ++ [clo]) (w ++ [cl]) ->
   let o := abs_path (wo ++ [clo]) in
   let p := abs_path (w ++ [cl]) in
   (fst (rename s (sv_view sv) o p), proj_res Linux (snd (rename s (sv_view sv) o p))) = go_rename s sv o p.
@@ -830,7 +832,7 @@ Proof.
   set (ro := search_node s (sv_view sv) (abs_path (wo ++ [clo])) SlLstat) in *.
   set (rn := search_node s (sv_view sv) (abs_path (w ++ [cl])) SlLstat) in *.
   unfold source_is_dir in Hnd. unfold dest_absent in Hab. unfold rename_one_error in Hone.
-  unfold not_into_itself in Hni.
+  unfold into_itself_agree in Hni.
   destruct (klookup s sv false false (abs_path (w ++ [cl]))) as [par kind name n|par name md| |e] eqn:HK; cbn [walk_rel] in R;
     [exfalso; exact (Hab _ _ _ _ eq_refl)| |destruct R|].
   - pose proof (Hkg _ _ _ eq_refl) as ->. destruct Hfin as (F1 & F2 & F3). destruct R as (R1 & R2 & R3 & R4).
@@ -840,14 +842,18 @@ Proof.
       destruct Ro as (O1 & O2 & O3 & _ & _ & O4). destruct (O4 eq_refl) as (O5 & O6).
       destruct (at_name_views _ _ _ _ _ _ (O6 eq_refl)) as (W1 & W2 & do & W3 & W4 & W5).
       specialize (Hnd _ _ _ _ eq_refl).
-      destruct (Hni _ _ _ _ _ _ _ eq_refl eq_refl) as (N1 & N2).
+      pose proof (Hni _ _ _ _ _ _ _ eq_refl eq_refl) as N2.
       assert (Hne : oc <> op).
       { intros ->. apply (ww_acyclic _ (dh_wf _ _ H) op). exists op, clo. split; [constructor|]. apply alookup_in. exact G1. }
       destruct (node_is_dir_get _ _ Hnd) as (cho & mo & Hgoc).
       fold ro rn in N2. change (sepc Linux) with SLASH.
       rewrite O1, R1, V2, O5, O2, R3, R2, V1, W1, N2. cbn [is_file_exists is_not_exist negb andb orb].
+      rewrite G1, F1, Hnd, Hgoc. cbn [negb andb orb].
+      (* into itself: EINVAL on both sides, before any permission test *)
+      destruct (is_ancestor (S (length (f_heap s))) (f_heap s) (v_root (sv_view sv)) oc par) eqn:N1;
+        [rewrite !orb_true_r; reflexivity|].
       rewrite (perm_on_write_searchable _ _ _ G3), (perm_on_write_searchable _ _ _ F3).
-      rewrite G1, F1, Hnd, N1. unfold may_delete. rewrite Hnd, Hgoc. cbn [negb andb orb].
+      unfold may_delete. rewrite Hnd. cbn [negb andb orb].
       assert (Hnep : Nat.eqb oc par = false).
       { destruct (Nat.eqb_spec oc par) as [<-|]; [|reflexivity]. cbn [is_ancestor] in N1. rewrite Nat.eqb_refl in N1. discriminate N1. }
       replace (Nat.eqb oc op) with false by (symmetry; apply Nat.eqb_neq; exact Hne). rewrite Hnep. cbn [orb negb andb].
@@ -1030,8 +1036,10 @@ Definition dcovered (phl : bool) (vi : nat) (sw : sworld) (c : call) : Prop :=
         /\ dest_absent s sv (w ++ [cl])
         /\ rename_one_error s sv (wo ++ [clo]) (w ++ [cl])
         /\ (source_not_dir s sv (wo ++ [clo])
-            \/ (source_is_dir s sv (wo ++ [clo]) /\ not_into_itself s sv (wo ++ [clo]) (w ++ [cl])))
+            \/ (source_is_dir s sv (wo ++ [clo]) /\ into_itself_agree s sv (wo ++ [clo]) (w ++ [cl])))
   | COpenFile vi' p flag _ => vi' = vi /\ open_covered s sv p flag
+  (* Getwd: the working-directory string is a directory walk to the parent of the working-directory node, then its name *)
+  | CGetwd vi' => vi' = vi /\ Inv_heap (f_heap s) /\ exists bs, cwd_walk s sv bs /\ length bs < SEARCH_FUEL
   | _ => False
   end.
 
@@ -1184,6 +1192,12 @@ Proof.
     + apply (impl_ro w _ _ (wstep_chtimes w vi _ Hv p)). exact I.
     + reflexivity.
     + rewrite <- Hfs, Ep, (dstep_chtimes (sw_fs sw) (sw_sv sw) cs H Hp). apply obs_sim_refl.
+  - (* Getwd *)
+    destruct Hc as (-> & I0 & bs & Hcw & Hlen).
+    apply (dworld_of_ro phl w vi sw Ha _ (getwd (w_fs w) (sv_view (sw_sv sw))) (k_getwd (sw_fs sw) (sw_sv sw))).
+    + apply (impl_ro w (CGetwd vi) _); [unfold wstep, on_view; rewrite Hv; reflexivity|exact I].
+    + apply spec_getwd.
+    + rewrite <- Hfs, (dstep_getwd (sw_fs sw) (sw_sv sw) bs (dh_os _ _ H) (dh_root _ _ H) I0 Hcw Hlen). apply obs_sim_refl.
   - (* Stat *)
     destruct Hc as (-> & cs & Ep & Hp).
     apply (dworld_of_ro phl w vi sw Ha _ (stat_gen SlStat (w_fs w) (sv_view (sw_sv sw)) p) (k_stat true (sw_fs sw) (sw_sv sw) p)).
